@@ -1,6 +1,6 @@
 /-
   Props/C01.lean — property C01: the parse/compile pipeline is total and fails only with typed,
-  located errors; matching work is linear.
+  located errors.  (Linear matching work: not proved, see the note below.)
 
   Status: the outcome-form, termination and stream-kind statements are proved for every source
   text and every (regenerated) table satisfying the kernel-checked facts below.  Crash-freedom of
@@ -42,14 +42,11 @@ theorem C01_error_lines (D : List Dialect) (T : Table) (hT : Spec.lookaheadsStop
     ∀ e ∈ es, 1 ≤ e.loc.line ∧ e.loc.line ≤ (splitLines src).length + 1 :=
   Lemmas.parse_error_lines D T hT stop μ ids src es comp h
 
-/-- Linear matching work: the number of `TokenMatcher.match_*` invocations is at most
-    `K · (lines + 1)` with `K` computed from the table: one pass over a state's tests per line
-    plus, for each look-ahead of the table, one visit of each line with all its tests. -/
-theorem C01_match_calls_linear (D : List Dialect) (T : Table) (hT : Spec.lookaheadsStopAtEOF T = true)
-    (stop : Bool) (μ : MState) (ids : Nat) (src : Str) :
-    (parseWith D T stop μ ids src).2.calls ≤
-      (Spec.maxTests T + Lemmas.lookaheadCost T) * ((splitLines src).length + 1) :=
-  Lemmas.parse_calls_linear D T hT stop μ ids src
+/- linear bound: not proved; checked by the harness on the implementation.
+   (A bound `calls ≤ (maxTests T + lookaheadCost T) · (lines + 1)` for *every* table satisfying
+   `lookaheadsStopAtEOF` is false: a guarded branch may fire on every line and its look-ahead
+   rescans the whole rest — quadratic; counterexample in Lemmas/Glue.lean.  A proof for the
+   regenerated table needs table-specific facts about where guards sit.) -/
 
 /-- Compiling any rectangular document returns a list of pickles (totality; from C06). -/
 theorem C01_compile_total (uri : Str) (doc : Doc) (n : Nat) (h : Spec.rectangular doc) :
